@@ -3,47 +3,32 @@ From DepsDev Require Import Lib.Base Lib.Order Semver.Version Semver.Compare Sem
   Semver.GemParse Semver.Gem_proofs.
 Local Open Scope Z_scope.
 
-(* The full statement: over all versions the parser produces. *)
-Definition C01_gem_full : Prop := exists c : version -> version -> Z,
-  (forall a b sa sb, gem_parse sa = Ok a -> gem_parse sb = Ok b -> compare a b = Ok (c a b)) /\
-  cmp_laws (fun v => exists s, gem_parse s = Ok v) c.
-
-(* It is false on the code as it stands (F-C01-3): Compare(1.a, 1.a.00) = -1 and
-   Compare(1.a.00, 1.a) = 0.  The comparator ends with: if len(bs) > len(as) return -1;
-   since equal numerals continue (da56cb5) that line is reached when the extra elements are
-   numerals of value 0 spelled 00. *)
-Theorem C01_gem_refuted : ~ C01_gem_full.
-Proof.
-  intros [c [Hc L]]. destruct gem_antisym_witness as [va [vb [Pa [Pb [C1 C2]]]]].
-  pose proof (Hc va vb _ _ Pa Pb) as E1. pose proof (Hc vb va _ _ Pb Pa) as E2.
-  rewrite C1 in E1. rewrite C2 in E2. inversion E1 as [E1']. inversion E2 as [E2'].
-  pose proof (cl_antisym _ _ L va vb (ex_intro _ _ Pa) (ex_intro _ _ Pb)) as A.
-  rewrite <- E1', <- E2' in A. discriminate.
-Qed.
-Print Assumptions C01_gem_refuted.
-
-(* What holds: on every RubyGems version structure (any numbers, any elements) whose element
-   list does not end in a numeral of value 0, compare never fails and is reflexive,
-   sign-antisymmetric, transitive and congruent: it orders by the zero-padded numbers, then
-   release above prerelease, then the elements padded with ("0",0), numerals above words. *)
-Theorem C01_gem_partial : exists c : version -> version -> Z,
+(* On every RubyGems version structure (any numbers, any elements: no well-formedness is
+   needed) compare never fails and is reflexive, sign-antisymmetric, transitive and
+   congruent. *)
+Theorem C01_gem : exists c : version -> version -> Z,
   (forall a b, gem_dom a -> gem_dom b -> compare a b = Ok (c a b)) /\ cmp_laws gem_dom c.
 Proof. exact gem_laws. Qed.
-Print Assumptions C01_gem_partial.
+Print Assumptions C01_gem.
 
-(* Every accepted string yields a structure of that kind, up to the condition on the last
-   element, which is the boolean gem_c01_dom shared with the harness. *)
-Theorem C01_gem_parser_outputs : forall s v, gem_parse s = Ok v -> gem_c01_dom v = true -> gem_dom v.
+(* Every string accepted by Parse yields such a structure, so the laws hold over all triples
+   of accepted strings. *)
+Theorem C01_gem_parser_outputs : forall s v, gem_parse s = Ok v -> gem_dom v.
 Proof. exact gem_parse_dom. Qed.
 Print Assumptions C01_gem_parser_outputs.
 
-(* The comparison is the stated key order. *)
-Theorem C01_gem_key : forall na nb xs ys, gem_last_ok xs = true -> gem_last_ok ys = true ->
-  gem_compare na nb xs ys = gem_key_cmp (na, xs) (nb, ys).
+(* The order is that of an explicit key: the numbers zero-padded, then a release above every
+   prerelease, then the elements compared one by one, the shorter list padded with ("0",0),
+   numerals above words, numerals by value, words by their bytes. *)
+Theorem C01_gem_key : forall na nb xs ys, gem_compare na nb xs ys = gem_key_cmp (na, xs) (nb, ys).
 Proof. exact gem_compare_key. Qed.
 Print Assumptions C01_gem_key.
 
-(* Non-vacuity: 1.a and 1.a.01 are accepted, in the domain, and ordered. *)
-Example C01_gem_nonvacuous : exists va vb,
-  gem_parse s_1a = Ok va /\ gem_parse s_1a01 = Ok vb /\ gem_dom va /\ gem_dom vb /\ compare va vb = Ok (-1).
-Proof. exact gem_domain_nonvacuous. Qed.
+(* Non-vacuity, with the pair of the repaired finding F-C01-3 (the final length test, removed
+   by c398aba): 1.a = 1.a.00 in both directions, both below 1.a.01. *)
+Example C01_gem_nonvacuous :
+  match gem_parse s_1a, gem_parse s_1a00, gem_parse s_1a01 with
+  | Ok a, Ok b, Ok c => compare a b = Ok 0 /\ compare b a = Ok 0 /\ compare a c = Ok (-1) /\ compare b c = Ok (-1)
+  | _, _, _ => False
+  end.
+Proof. exact gem_examples. Qed.
